@@ -88,6 +88,23 @@ def scramble(obj, seen):
 
 def bounded(ctx, b):
     docs = samples.all_docs()
+    # what a reader returns does not depend on what was WRITTEN earlier in the process: a MicroDVD document with a declared
+    # frame rate and frame numbers in the millions, read after every writer has been at work - against exact rational times
+    def after_writers():
+        from fractions import Fraction
+        from pycaption import CaptionSet, CaptionList, Caption, MicroDVDReader
+        own = CaptionSet({"en-US": CaptionList([Caption(12345678, 23456789, [CaptionNode.create_text("a")]), Caption(3603603603, 3603999999, [CaptionNode.create_text("b")])])})
+        for Wr in ALL_WRITERS:
+            try:
+                Wr().write(own)
+            except Exception:
+                pass
+        frames = [(1237, 1301), (86400, 86500), (2589408, 2589500)]
+        doc = "{0}{0}23.976\n" + "".join(f"{{{a}}}{{{z}}}line {k}\n" for k, (a, z) in enumerate(frames))
+        got = [(c_.start, c_.end) for c_ in MicroDVDReader().read(doc).get_captions("und")]
+        want = [(int(Fraction(a * 10 ** 6) / Fraction("23.976")), int(Fraction(z * 10 ** 6) / Fraction("23.976"))) for a, z in frames]
+        return got == want, {"read_after_every_writer_was_used": got, "expected": want}
+    b.guard(("microdvd_after_writers",), after_writers, sample={"case": "MicroDVD document with a declared rate read after unrelated writes"})
     for fmt, ds in docs.items():
         R = READERS[fmt]
         fresh = [samples.dump(R().read(d)) for d in ds]
